@@ -177,6 +177,9 @@ class Gen:
             kinds += ["if", "lambda", "loop", "iter", "dip", "ifnone"]
         if self.profile == "tickets":
             kinds = ["ticket"] * 12 + ["stack", "stack", "push", "option_or", "usetop"] + (["ifnone", "dip"] if depth > 0 else [])
+        elif self.profile == "collections":
+            kinds = ["setmap"] * 7 + ["list"] * 3 + ["comb"] * 2 + ["usetop", "usetop", "stack", "arith", "option_or"] + \
+                (["ifnone", "dip", "iter"] if depth > 0 else [])
         elif self.profile == "core":
             kinds += ["ticket"]
             if self.d(st.integers(0, 60)) == 0:
@@ -364,16 +367,17 @@ class Gen:
         return self.c_list(ts, depth)
 
     def c_setmap(self, ts, depth):
-        kt = self.d(small_type(self.d(st.integers(0, 1)), comparable=True))
+        coll = self.profile == "collections"
+        kt = self.d(small_type(1 if coll else self.d(st.integers(0, 1)), comparable=True))
         base = self.d(gt.values(kt))
-        ks = [base] + [self.d(gt.near(kt, base)) for _ in range(self.d(st.integers(0, 3)))]
+        ks = [base] + [self.d(gt.near(kt, base)) for _ in range(self.d(st.integers(1 if coll else 0, 3)))]
         ks = rv.sort_values(kt, gt._consistent(kt, ks))
         probe = self.pick(ks) if self.d(st.booleans()) else self.d(gt.near(kt, base))
         if any(rv.compare(kt, probe, k) is rv.UNCONSTRAINED for k in ks):
             probe = ks[0]
         if self.d(st.booleans()):  # set
             ct = T("set", kt)
-            code = [push(ct, ks[:self.d(st.integers(0, len(ks)))])]
+            code = [push(ct, ks[:self.d(st.integers(1 if coll else 0, len(ks)))])]
             k = self.pick(["MEM", "UPDATE", "SIZE", "ITER", "keep"])
             if k == "MEM":
                 code += [push(kt, probe), P("MEM")]
@@ -386,9 +390,10 @@ class Gen:
             return code
         vt = self.d(small_type(0))
         ct = T("map", kt, vt)
-        sub = ks[:self.d(st.integers(0, len(ks)))]
+        sub = ks[:self.d(st.integers(1 if coll else 0, len(ks)))]
         code = [push(ct, [(k, self.d(gt.values(vt))) for k in sub])]
-        k = self.pick(["MEM", "GET", "UPDATE", "GET_AND_UPDATE", "SIZE", "ITER", "MAP", "keep"])
+        k = self.pick(["MEM", "GET", "UPDATE", "GET_AND_UPDATE", "SIZE", "ITER", "MAP", "keep"] +
+                      (["MAP", "MAP", "UPDATE", "GET_AND_UPDATE", "GET_AND_UPDATE"] if coll else []))
         ov = self.d(st.one_of(st.none(), gt.values(vt).map(lambda x: ("Some", x))))
         if k in ("MEM", "GET"):
             code += [push(kt, probe), P(k)]
@@ -514,7 +519,7 @@ class Gen:
             return [push(T("int"), n), P("DUP"), P("GT"), P("LOOP", body), P("DROP")]
         body = [P("DIP", inner), push(T("int"), -1), P("ADD"), P("DUP"), P("GT"),
                 P("IF", [P("LEFT", T("unit"))], [P("DROP"), P("UNIT"), P("RIGHT", T("int"))])]
-        return [push(T("int"), max(n, 1)), P("LEFT", T("unit")), P("LOOP_LEFT", body), P("DROP")]
+        return [push(T("int"), max(n, 1)), P("LEFT", T("unit")), P("LOOP_LEFT", body)]  # leaves the Right payload (unit)
 
     def c_ticket(self, ts, depth):
         opts = ["create", "create"]
